@@ -236,9 +236,10 @@ def r3_preview_classes(ctx):
     # preview SQL (prepare) and executed SQL (_build_batches) select their
     # mutations with the same function: both calls must name the database
     # (it selects database-specific .sql evolution files)
+    from ..util import unit_walk
     sel = {}
     for f in (pr, bb):
-        for c in walk_no_nested(f.node):
+        for g_, c in unit_walk(ctx, f):
             if isinstance(c, ast.Call) and \
                     call_name(c) == 'get_app_pending_mutations':
                 sel[f.qualname] = c
